@@ -166,4 +166,20 @@ theorem C07_rejects (infos : List Info) (ix prog stored disc : Bytes) :
     obtain ⟨m, h1, h2⟩ := h j hj
     exact hbad m h1 h2
 
+/-! Non-vacuity: a concrete scenario — a stored list of two fixed-key configs, the first of which
+    repeats a key that the instruction already holds read-only (so it is de-escalated). -/
+def exK (b : UInt8) : Bytes := List.replicate 32 b
+def exT : Bytes := [1, 1, 1, 1, 1, 1, 1, 1]
+def exStored : Bytes := (init (zeros 100) exT [⟨0, exK 7, 1, 1⟩, ⟨0, exK 9, 0, 1⟩]).1
+def exPda (mats : List Bytes) (_ : Bytes) : Option Bytes := mats.head?
+
+set_option maxRecDepth 20000 in
+example : checkAccountInfos exPda [⟨exK 8, true, true, []⟩, ⟨exK 7, true, true, []⟩, ⟨exK 9, false, true, []⟩] [5] (exK 3) exStored exT = .ok () := by decide
+set_option maxRecDepth 20000 in
+/-- one flipped flag -/
+example : (checkAccountInfos exPda [⟨exK 8, true, true, []⟩, ⟨exK 7, true, false, []⟩, ⟨exK 9, false, true, []⟩] [5] (exK 3) exStored exT).isErr = true := by decide
+set_option maxRecDepth 20000 in
+/-- fewer accounts than configs -/
+example : (checkAccountInfos exPda [⟨exK 9, false, true, []⟩] [5] (exK 3) exStored exT).isErr = true := by decide
+
 end C07
